@@ -80,12 +80,18 @@ def gen_history(r, maxlen):
         if r.random() < 0.12:
             ops.append({"op": "state"})
     ops.append({"op": "state"})
+    if disciplined:
+        # the consumer keeps reading: everything still queued must come out
+        for _ in range(cap + 3):
+            ops.append({"op": "recv"})
+        ops.append({"op": "drained", "disciplined": True})
     return ops
 
 
 def oracle(ctx, hist, out):
     """The property evaluated on the implementation's own answers (independent of the Lean model)."""
     cap, frozen, prev_state, dead = None, False, None, False
+    delivered = set()
     for i, (op, a) in enumerate(zip(hist, out)):
         res = a.split(" ")[0]
         if res in ("dead", "panic", "blocked") and op["op"] in ("feedback", "finish"):
@@ -94,8 +100,19 @@ def oracle(ctx, hist, out):
             dead = True
         if dead:
             continue
+        if res.startswith("item:"):
+            delivered.add(res[5:])
+        if op["op"] == "drained":
+            # every tracked seed must have reached the output by now (the consumer kept reading)
+            tab = [t for t in a.split("table=")[1].split(",") if t] if "table=" in a else []
+            lost = [t for t in tab if t not in delivered]
+            if lost and op.get("disciplined"):
+                ctx.violation("accepted seeds %s never reached the output although the consumer kept reading" % lost,
+                              {"domain": "reactor", "history": hist[:i + 1], "impl": out[:i + 1]})
+            continue
         if op["op"] == "start" and res == "ok":
             cap, frozen, prev_state = op["tokens"], False, None
+            delivered = set()
         elif op["op"] == "freeze":
             frozen = True
         elif op["op"] == "stop":
@@ -156,6 +173,11 @@ def corpus(ctx):
 
 
 def stress(ctx, n):
+    rc, out, err = core.run_impl("reactor", [json.dumps({"op": "racefinish", "rounds": 20000 if ctx.thorough() else 3000})], timeout=1200)
+    ctx.case("racefinish", True)
+    ctx.count("racefinish:" + out[0].split(" ")[0])
+    if not out[0].startswith("ok"):
+        ctx.violation("two simultaneous finishes of one seed: " + out[0], {"domain": "reactor", "racefinish": True, "impl": out[0]})
     lines = []
     for i in range(n):
         lines.append(json.dumps({"op": "stress", "tokens": ctx.rng.choice([1, 2, 5, 16]), "producers": ctx.rng.choice([1, 3, 8]),
@@ -181,6 +203,9 @@ def run(ctx):
 
 def replay(ctx, doc):
     rp = doc.get("replay", doc)
+    if rp.get("racefinish") or rp.get("stress"):
+        stress(ctx, 2)
+        return
     if "history" in rp:
         run_histories(ctx, [rp["history"]])
     elif "input" in rp and "history" in rp["input"]:
